@@ -164,6 +164,10 @@ impl G<'_> {
                     "echo bg >bgfile & wait; relay <bgfile",
                     "(exit 5) & (exit 6) & wait; echo \"st=$?\"",
                     "wait 99999; echo \"st=$?\"",
+                    // a child that has been waited for no longer exists: no signal reaches it
+                    "(exit 3) & p=$!; wait; kill -s TERM $p 2>/dev/null; echo \"kill st=$?\"; wait $p; echo \"st=$?\"",
+                    "(exit 4) & p=$!; wait $p; echo \"st=$?\"; kill -s 0 $p 2>/dev/null; echo \"kill0 st=$?\"; kill -s CONT $p 2>/dev/null; echo \"cont st=$?\"",
+                    "{ exit 5; } & p=$!; wait $p; kill -s KILL $p 2>/dev/null; echo \"kill st=$?\"; wait $p; echo \"st=$?\"",
                     // descriptors 10 and up are where the shell keeps its own copies while a
                     // redirection is in effect: a script can neither reach nor replace them
                     "{ echo ten >&10; } >ten.out; echo \"st=$?\"; relay <ten.out",
